@@ -1,0 +1,224 @@
+//go:build verif
+
+package rtmp
+
+// Contracts for pkg/rtmp (C04, C08, C17, C18). Checked by /verif/govc; see /verif/DESIGN.md §2.2.
+
+// ---- object facts -----------------------------------------------------------------------------------------------
+//@ type ServerSession nonnil packer conn chunkComposer
+//@ type MessagePacker nonnil b
+//@ type StreamMsg nonnil buff
+//@ type ChunkComposer nonnil csid2stream
+//@ type ChunkDivider invariant [C08.divider] 1 <= self.localChunkSize && self.localChunkSize <= 1<<24
+//@ type Buffer invariant [C17.buf] slow: 0 <= self.readPos && self.readPos <= self.writePos && self.writePos <= len(self.core) && cap(self.core) == len(self.core)
+
+// ---- chunk header spec functions (RTMP 1.0 §5.3.1) ----------------------------------------------------------------
+//@ pure be24(b []byte, i int) uint32 = uint32(b[i])<<16 | uint32(b[i+1])<<8 | uint32(b[i+2])
+//@ pure be32(b []byte, i int) uint32 = uint32(b[i])<<24 | uint32(b[i+1])<<16 | uint32(b[i+2])<<8 | uint32(b[i+3])
+//@ pure le32(b []byte, i int) uint32 = uint32(b[i]) | uint32(b[i+1])<<8 | uint32(b[i+2])<<16 | uint32(b[i+3])<<24
+//@ pure bhl(csid int) int = csid <= 63 ? 1 : (csid <= 319 ? 2 : 3)
+//@ pure csidOf(b []byte) int = b[0]&0x3f >= 2 ? int(b[0]&0x3f) : (b[0]&0x3f == 0 ? 64 + int(b[1]) : 64 + int(b[1]) + 256*int(b[2]))
+
+// calcHeader is only called with prevHeader == nil (first chunk, format 0) or prevHeader == header
+// (continuation, format 3); the call-site obligation pre:calcHeader checks that.
+//@ func calcHeader
+//@   props C08 C04
+//@   requires prevHeader == nil || prevHeader == header
+//@   requires 2 <= header.Csid && header.Csid <= 65599 && len(out) >= 18
+//@   let m = bhl(header.Csid)
+//@   let ts = header.TimestampAbs
+//@   let ext = ts >= 0xFFFFFF
+//@   ensures [C08.csid]   csidOf(out) == header.Csid
+//@   ensures [C08.fmt]    out[0]>>6 == (prevHeader == nil ? 0 : 3)
+//@   ensures [C08.f0.ts]  prevHeader == nil ==> be24(out, m) == (ext ? 0xFFFFFF : ts)
+//@   ensures [C08.f0.len] slow: prevHeader == nil ==> be24(out, m+3) == header.MsgLen & 0xFFFFFF && out[m+6] == header.MsgTypeId && le32(out, m+7) == uint32(header.MsgStreamId)
+//@   ensures [C08.f0.ext] prevHeader == nil ==> result == m + 11 + (ext ? 4 : 0) && (ext ==> be32(out, m+11) == ts)
+//@   ensures [C08.f3.ext] prevHeader != nil ==> result == m + (ext ? 4 : 0) && (ext ==> be32(out, m) == ts)
+//@ end
+
+// ---- send buffer (C17: "forwards an RTMP publisher's URL parameters whatever their length") ------------------------
+//@ func NewBuffer
+//@   props C17 C04
+//@   requires 0 <= n && n <= 1<<32
+//@   ensures [C17.newbuf] len(result.core) == n && result.readPos == 0 && result.writePos == 0
+//@ end
+
+//@ func (*Buffer).grow
+//@   props C17 C04
+//@   requires 0 <= n && n <= 1<<32
+//@   ensures [C17.grow.room] slow: len(b.core) - b.writePos >= n
+//@   ensures [C17.grow.len]  b.writePos - b.readPos == old(b.writePos - b.readPos)
+//@   ensures [C17.grow.data] forall i in [0, b.writePos - b.readPos) :: b.core[b.readPos+i] == old(b.core[b.readPos+i])
+//@ end
+
+//@ func (*Buffer).Write
+//@   props C17 C04
+//@   requires len(p) <= 1<<32
+//@   ensures [C17.write.len]  b.writePos - b.readPos == old(b.writePos - b.readPos) + len(p) && result0 == len(p)
+//@   ensures [C17.write.data] forall i in [0, len(p)) :: b.core[b.readPos + old(b.writePos - b.readPos) + i] == old(p[i])
+//@   ensures [C17.write.keep] forall i in [0, old(b.writePos - b.readPos)) :: b.core[b.readPos+i] == old(b.core[b.readPos+i])
+//@ end
+
+//@ func (*Buffer).WriteByte
+//@   props C17 C04
+//@   ensures [C17.writebyte] b.writePos - b.readPos == old(b.writePos - b.readPos) + 1 && b.core[b.writePos-1] == c
+//@ end
+
+// ---- message -> chunks (C08 encoder side, C01 "once-only conversion equals the encoder spec") -----------------------
+// Chunk i starts at out[old(index)]: a header of headLen bytes (format 0 for i == 0, format 3 afterwards, as
+// calcHeader's contract describes) followed by the next slice of the message.
+//@ func message2Chunks
+//@   props C08 C01
+//@   mode int
+//@   modular
+//@   requires header != nil && prevHeader == nil && chunkSize >= 1 && chunkSize <= 1<<24
+//@   requires 1 <= len(message) && len(message) < 1<<24 && 2 <= header.Csid && header.Csid <= 65599
+//@   let m = bhl(header.Csid)
+//@   let extn = header.TimestampAbs >= 0xFFFFFF ? 4 : 0
+//@   loop 1 invariant 0 <= i && i <= numOfChunk && 0 <= index && index <= i*(chunkSize+18) && (i == numOfChunk ==> index <= len(out)) && fresh(out)
+//@   loop 1 invariant (i == 0) == (prevHeader == nil) && (i > 0 ==> prevHeader == header)
+//@   loop 1 invariant [C08.chunks.len] thorough index == (i == 0 ? 0 : m + 11 + extn + (i-1)*(m + extn) + i*chunkSize)
+//@   loop 1 decreases numOfChunk - i
+//@   loop 1 step [C08.chunk.hdr]  headLen == (old(i) == 0 ? m + 11 + extn : m + extn)
+//@   loop 1 step [C08.chunk.size] index - old(index) - headLen == (old(i) == numOfChunk-1 ? lastChunkSize : chunkSize)
+//@   loop 1 step [C08.chunk.body] slow: forall j in [0, index - old(index) - headLen) :: out[old(index)+headLen+j] == message[old(i)*chunkSize+j]
+//@   ensures [C08.fresh] fresh(result)
+//@   ensures [C08.total] thorough len(result) == len(message) + m + 11 + extn + (numOfChunk-1)*(m+extn)
+//@ end
+
+// ---- AMF0 readers (C18 totality/bounds/termination, C04) -----------------------------------------------------------
+//@ pure be16(b []byte, i int) uint16 = uint16(b[i])<<8 | uint16(b[i+1])
+
+//@ func (amf0).ReadStringWithoutType
+//@   props C18 C04
+//@   ensures [C18.str.ok]    result2 == nil ==> 2 <= result1 && result1 <= len(b) && result1 == 2 + int(be16(b, 0)) && len(result0) == result1 - 2
+//@   ensures [C18.str.err]   result2 != nil ==> result1 == 0
+//@   ensures [C18.str.total] thorough len(b) >= 2 && int(be16(b, 0)) <= len(b) - 2 ==> result2 == nil
+//@   ensures [C18.str.bytes] result2 == nil ==> forall i in [0, len(result0)) :: result0[i] == b[2+i]
+//@ end
+
+//@ func (amf0).ReadLongStringWithoutType
+//@   props C18 C04
+//@   ensures [C18.lstr.ok]  result2 == nil ==> 4 <= result1 && result1 <= len(b) && len(result0) == result1 - 4
+//@   ensures [C18.lstr.err] result2 != nil ==> result1 == 0
+//@ end
+
+//@ func (amf0).ReadString
+//@   props C18 C04
+//@   ensures [C18.rstr.total.long] len(b) >= 5 && b[0] == 12 && b[1] == 0 && b[2] == 0 && b[3] == 0 && int(b[4]) <= len(b) - 5 ==> err == nil && l == 5 + int(b[4])
+//@   ensures [C18.rstr.total.short] len(b) >= 3 && b[0] == 2 && int(be16(b, 1)) <= len(b) - 3 ==> err == nil && l == 3 + int(be16(b, 1))
+//@   ensures [C18.rstr.ok] err == nil ==> 3 <= l && l <= len(b) && (b[0] == 2 || b[0] == 12) && (b[0] == 2 ==> l == 3 + int(be16(b, 1)) && len(val) == l - 3)
+//@ end
+
+//@ func (amf0).ReadNumber
+//@   props C18 C04
+//@   ensures [C18.num.ok] result2 == nil ==> result1 == 9 && 9 <= len(b) && b[0] == 0
+//@   ensures [C18.num.total] len(b) >= 9 && b[0] == 0 ==> result2 == nil
+//@ end
+
+//@ func (amf0).ReadBoolean
+//@   props C18 C04
+//@   ensures [C18.bool.ok] result2 == nil ==> result1 == 2 && 2 <= len(b) && b[0] == 1 && result0 == (b[1] != 0)
+//@   ensures [C18.bool.total] len(b) >= 2 && b[0] == 1 ==> result2 == nil
+//@ end
+
+//@ func (amf0).ReadNull
+//@   props C18 C04
+//@   ensures [C18.null.ok] result1 == nil ==> result0 == 1 && 1 <= len(b) && b[0] == 5
+//@ end
+
+// The recursive readers. Nesting is limited by the depth argument (at most amf0MaxNestDepth = 64), which
+// gives the termination measure of the recursion and a constant bound on its depth (stackbound); the
+// loops terminate because every element consumes input.
+//@ func (amf0).read
+//@   props C18 C04
+//@   requires 0 <= index && index <= len(b) && 0 <= depth && depth <= 64
+//@   decreases 2*(65 - depth)
+//@   stackbound 200
+//@   ensures [C18.read.progress] slow: result2 == nil ==> index < result1 && result1 <= len(b)
+//@ end
+
+//@ func (amf0).readObject
+//@   props C18 C04
+//@   requires 0 <= depth && depth <= 64
+//@   decreases 2*(65 - depth) + 1
+//@   stackbound 200
+//@   loop 1 invariant 1 <= index && index <= len(b)
+//@   loop 1 decreases len(b) - index
+//@   ensures [C18.obj.ok] result2 == nil ==> 4 <= result1 && result1 <= len(b)
+//@ end
+
+//@ func (amf0).readArray
+//@   props C18 C04
+//@   requires 0 <= depth && depth <= 64
+//@   decreases 2*(65 - depth) + 1
+//@   stackbound 200
+//@   loop 1 invariant 0 <= i && 5 <= index && index <= len(b) && count >= 0
+//@   loop 1 decreases count - i
+//@   ensures [C18.arr.ok] result2 == nil ==> 5 <= result1 && result1 <= len(b)
+//@ end
+
+//@ func (amf0).readStrictArray
+//@   props C18 C04
+//@   requires 0 <= depth && depth <= 64
+//@   decreases 2*(65 - depth) + 1
+//@   stackbound 200
+//@   loop 1 invariant 0 <= i && 5 <= index && index <= len(b) && count >= 0
+//@   loop 1 decreases count - i
+//@   ensures [C18.sarr.ok] result2 == nil ==> 5 <= result1 && result1 <= len(b)
+//@ end
+
+//@ func (amf0).ReadObject
+//@   props C18 C04
+//@   ensures [C18.obj.ok] result2 == nil ==> 4 <= result1 && result1 <= len(b)
+//@ end
+
+//@ func (amf0).ReadArray
+//@   props C18 C04
+//@   ensures [C18.arr.ok] result2 == nil ==> 5 <= result1 && result1 <= len(b)
+//@ end
+
+//@ func (amf0).ReadStrictArray
+//@   props C18 C04
+//@   ensures [C18.sarr.ok] result2 == nil ==> 5 <= result1 && result1 <= len(b)
+//@ end
+
+//@ func (amf0).ReadObjectOrArray
+//@   props C18 C04
+//@   ensures [C18.objarr.ok] result2 == nil ==> 4 <= result1 && result1 <= len(b)
+//@ end
+
+// ---- signalling messages: one chunk only while the body fits the announced chunk size (C08, C17) -------------------
+// "调用方应自己保证在 bodyLen 小于 chunk size 时使用" — the function's own documentation is its precondition.
+//@ func writeSingleChunkHeader
+//@   props C08 C17 C04
+//@   requires len(out) >= 12 && 2 <= csid && csid <= 63 && 0 <= bodyLen && bodyLen <= LocalChunkSize && bodyLen < 1<<24
+//@   ensures [C08.sch.basic] out[0] == uint8(csid) && out[1] == 0 && out[2] == 0 && out[3] == 0
+//@   ensures [C08.sch.len]   be24(out, 4) == uint32(bodyLen) && out[7] == typeid && le32(out, 8) == uint32(streamid)
+//@ end
+
+//@ func (*MessagePacker).ChunkAndWrite
+//@   props C08 C17 C04
+//@   requires writer != nil && packer.b.writePos - packer.b.readPos >= 12 && packer.b.writePos - packer.b.readPos < 1<<24 && 2 <= csid && csid <= 63
+//@ end
+
+// ---- @setDataFrame (C18: "adding or stripping the prefix preserves the remaining metadata bytes exactly") ----------
+//@ pure isSdfShort(b []byte) bool = len(b) >= 16 && b[0] == 2 && b[1] == 0 && b[2] == 13 && b[3] == '@' && b[4] == 's' && b[5] == 'e' && b[6] == 't' && b[7] == 'D' && b[8] == 'a' && b[9] == 't' && b[10] == 'a' && b[11] == 'F' && b[12] == 'r' && b[13] == 'a' && b[14] == 'm' && b[15] == 'e'
+//@ pure isSdfLong(b []byte) bool = len(b) >= 18 && b[0] == 12 && b[1] == 0 && b[2] == 0 && b[3] == 0 && b[4] == 13 && b[5] == '@' && b[6] == 's' && b[7] == 'e' && b[8] == 't' && b[9] == 'D' && b[10] == 'a' && b[11] == 't' && b[12] == 'a' && b[13] == 'F' && b[14] == 'r' && b[15] == 'a' && b[16] == 'm' && b[17] == 'e'
+
+//@ func MetadataEnsureWithoutSdf
+//@   props C18 C01
+//@   requires len(b) < 1<<24
+//@   ensures [C18.sdf.strip.short] slow: isSdfShort(b) ==> result1 == nil && len(result0) == len(b) - 16 && forall i in [0, len(b) - 16) :: result0[i] == b[16+i]
+//@   ensures [C18.sdf.strip.long]  slow: isSdfLong(b) ==> result1 == nil && len(result0) == len(b) - 18 && forall i in [0, len(b) - 18) :: result0[i] == b[18+i]
+//@   ensures [C18.sdf.strip.err]   result1 != nil ==> len(result0) == len(b) && forall i in [0, len(b)) :: result0[i] == b[i]
+//@   ensures [C18.sdf.strip.fresh] len(result0) > 0 ==> fresh(result0)
+//@ end
+
+// Session plumbing used from pkg/logic: bodies not followed from there (assumed panic-free, listed as trusted).
+//@ func (*PullSession).Dispose
+//@   trusted
+//@ end
+//@ func (*PullSession).UniqueKey
+//@   trusted
+//@ end
